@@ -101,8 +101,7 @@ pub fn test_case(b: &Case) -> Result<CaseInfo, Fail> {
     })
 }
 
-pub fn gen_batch(m: &mut Mix, with_failure: bool, max_sessions: usize) -> Batch {
-    let n = 2;
+pub fn gen_batch(m: &mut Mix, with_failure: bool, max_sessions: usize, n: usize) -> Batch {
     let k = 1 + m.below(max_sessions);
     let concurrency = 1 + m.below(3);
     let mut sessions = vec![];
@@ -122,11 +121,16 @@ pub fn gen_batch(m: &mut Mix, with_failure: bool, max_sessions: usize) -> Batch 
         let si = m.below(k);
         let s = &sessions[si];
         let leader = s.leader;
-        let follower = 1 - leader;
-        let mut opts = vec![(RpcKind::Validate, leader, follower), (RpcKind::Run, leader, follower)];
+        let mut opts = vec![];
+        for follower in (0..n).filter(|p| *p != leader) {
+            opts.push((RpcKind::Validate, leader, follower));
+            opts.push((RpcKind::Run, leader, follower));
+        }
         for p in 0..n {
             if s.prog.consts_from[p] {
-                opts.push((RpcKind::Consts, p, 1 - p));
+                for q in (0..n).filter(|q| *q != p) {
+                    opts.push((RpcKind::Consts, p, q));
+                }
             }
         }
         let (kind, from, to) = opts[m.below(opts.len())];
@@ -141,7 +145,8 @@ pub fn gen_batch(m: &mut Mix, with_failure: bool, max_sessions: usize) -> Batch 
 fn run_unit(u: &Unit, emit: &mut dyn FnMut(UnitResult)) {
     let mut m = Mix(u.seed);
     for _ in 0..u.count {
-        let b = gen_batch(&mut m, u.with_failure, if u.with_failure { 3 } else { 8 });
+        let n = if u.with_failure && u.seed % 2 == 1 { 3 } else { 2 };
+        let b = gen_batch(&mut m, u.with_failure, if u.with_failure { if n == 3 { 2 } else { 3 } } else { 8 }, n);
         match test_case(&b) {
             Ok(i) => emit(UnitResult::Ok(i)),
             Err(f) => emit(UnitResult::Fail(f, serde_json::to_value(&b).unwrap())),
@@ -163,7 +168,7 @@ pub fn run(tier: Tier, seed: u64) -> i32 {
         return run_worker(units(tier, seed), k, of, run_unit);
     }
     let ctx = Ctx::new("C17", tier, seed, "fault_enumeration");
-    ctx.set_rule("generated batches (seeded SplitMix from VERIF_SEED): 1..8 two-party policies in flight at once sharing one semaphore per party, concurrency 1..3, mixed leaders, constants from none/some parties, destination present or absent, random interleaving of all sessions' schedule calls and coordination RPC deliveries (choice vector); second family: 1..3 policies with a failure injected into one validate / run / consts RPC; oracle: (1) per party, the number of sessions it leads whose interval [first run sent, leader's last activity] overlaps never exceeds the concurrency; (2) undisturbed batch: exactly one correct result per destination, every state machine stopped, every semaphore full at exact quiescence; (3) failed RPC: the caller's state machine has stopped, its destination received at most one notification and (run/consts) exactly one error, a failed validate is reported by the schedule call, and the caller's budget is complete; the callee side may linger; non-trivial = batch with >= 2 sessions or a fired failure; distinct by hash of the batch");
+    ctx.set_rule("generated batches (seeded SplitMix from VERIF_SEED): 1..8 two-party policies in flight at once sharing one semaphore per party, concurrency 1..3, mixed leaders, constants from none/some parties, destination present or absent, random interleaving of all sessions' schedule calls and coordination RPC deliveries (choice vector); second family: 1..3 two-party or 1..2 three-party policies with a failure injected into one validate / run / consts RPC (for three parties: towards one of the two peers only); oracle: (1) per party, the number of sessions it leads whose interval [first run sent, leader's last activity] overlaps never exceeds the concurrency; (2) undisturbed batch: exactly one correct result per destination, every state machine stopped, every semaphore full at exact quiescence; (3) failed RPC: the caller's state machine has stopped, its destination received at most one notification and (run/consts) exactly one error, a failed validate is reported by the schedule call, and the caller's budget is complete; the callee side may linger; non-trivial = batch with >= 2 sessions or a fired failure; distinct by hash of the batch");
     let n_units = units(tier, seed).len();
     ctx.extra("work_units", json!(n_units));
     run_parent(&ctx, "C17", n_units);
